@@ -170,3 +170,135 @@ Theorem C07_single_second_step_f32 : forall (p : profile) (a0 : algo) s d (m : l
     /\ eqv (f_ltb F32) (s_dis t1) (dcell (kops_of F32 Single) M0 c e).
 Proof. exact single_second_step_probe_f32. Qed.
 Print Assumptions C07_single_second_step_f32.
+
+Require Import KV.Model.Primitive KV.Model.Generic KV.Proofs.Criteria KV.Proofs.CriteriaRun KV.Proofs.QInf KV.Model.Chain KV.Proofs.FirstStepInstances KV.Proofs.FirstStepCarrier.
+From Coq Require Import QArith.
+Local Close Scope Q_scope.
+
+(* ---- the first-step consequence for the other methods (FirstStep.v) ----
+   through primitive: single, complete, centroid, median on binary64 / binary32, every input;
+   all seven methods in exact rational arithmetic; through generic: all seven over option Q *)
+Theorem C07_primitive_first_step_f64 : forall (p : profile) meth s d (m : list PrimFloat.float) n s' d' m' M0 (a b : nat) v,
+  meth = Single \/ meth = Complete \/ meth = Centroid \/ meth = Median ->
+  primitive_with (kops_of F64 meth) p meth s d m n = Ok (s', d', m') ->
+  prologue p (square_all (kops_of F64 meth) m) n = Ok M0 ->
+  a < b -> b < m_obs M0 ->
+  UpdateSpec.wcell M0 a b = Some v ->
+  (forall x y w, x < y -> y < m_obs M0 -> (x, y) <> (a, b) -> UpdateSpec.wcell M0 x y = Some w -> PrimFloat.ltb v w = true) ->
+  exists t, nth_error (d_steps d') 0 = Some t /\ s_c1 t = a /\ s_c2 t = b /\ s_size t = 2
+    /\ s_dis t = k_rt (kops_of F64 meth) v.
+Proof. exact primitive_first_step_f64. Qed.
+Print Assumptions C07_primitive_first_step_f64.
+
+Theorem C07_primitive_first_step_f32 : forall (p : profile) meth s d (m : list f32) n s' d' m' M0 (a b : nat) v,
+  meth = Single \/ meth = Complete \/ meth = Centroid \/ meth = Median ->
+  primitive_with (kops_of F32 meth) p meth s d m n = Ok (s', d', m') ->
+  prologue p (square_all (kops_of F32 meth) m) n = Ok M0 ->
+  a < b -> b < m_obs M0 ->
+  UpdateSpec.wcell M0 a b = Some v ->
+  (forall x y w, x < y -> y < m_obs M0 -> (x, y) <> (a, b) -> UpdateSpec.wcell M0 x y = Some w -> f_ltb F32 v w = true) ->
+  exists t, nth_error (d_steps d') 0 = Some t /\ s_c1 t = a /\ s_c2 t = b /\ s_size t = 2
+    /\ s_dis t = k_rt (kops_of F32 meth) v.
+Proof. exact primitive_first_step_f32. Qed.
+Print Assumptions C07_primitive_first_step_f32.
+
+Theorem C07_primitive_first_step_Q : forall (p : profile) (rt : Q -> Q) meth s d (m : list Q) n s' d' m' (M0 : cmat Q) (a b : nat) (v : Q),
+  primitive_with (kops_of (QFr rt) meth) p meth s d m n = Ok (s', d', m') ->
+  prologue p (square_all (kops_of (QFr rt) meth) m) n = Ok M0 ->
+  a < b -> b < m_obs M0 ->
+  UpdateSpec.wcell M0 a b = Some v ->
+  (forall x y w, x < y -> y < m_obs M0 -> (x, y) <> (a, b) -> UpdateSpec.wcell M0 x y = Some w -> (v < w)%Q) ->
+  exists t, nth_error (d_steps d') 0 = Some t /\ s_c1 t = a /\ s_c2 t = b /\ s_size t = 2
+    /\ s_dis t = k_rt (kops_of (QFr rt) meth) v.
+Proof. exact primitive_first_step_Q. Qed.
+Print Assumptions C07_primitive_first_step_Q.
+
+Theorem C07_generic_first_step_QI : forall (p : profile) (rt : Q -> Q) meth s d (mq : list Q) n s' d' m' (M0 : cmat qi) (a b : nat) (v : Q),
+  generic_with (kops_of (QI rt) meth) p meth s d (map Some mq) n = Ok (s', d', m') ->
+  prologue p (square_all (kops_of (QI rt) meth) (map Some mq)) n = Ok M0 ->
+  a < b -> b < m_obs M0 ->
+  UpdateSpec.wcell M0 a b = Some (Some v) ->
+  (forall x y w, x < y -> y < m_obs M0 -> (x, y) <> (a, b) -> UpdateSpec.wcell M0 x y = Some (Some w) -> (v < w)%Q) ->
+  exists t, nth_error (d_steps d') 0 = Some t /\ s_c1 t = a /\ s_c2 t = b /\ s_size t = 2
+    /\ s_dis t = k_rt (kops_of (QI rt) meth) (Some v).
+Proof. exact generic_first_step_QI. Qed.
+Print Assumptions C07_generic_first_step_QI.
+
+(* ... and through nnchain: single / complete on binary64 / binary32 (NaN-free input), average /
+   weighted / ward in exact rational arithmetic. Here the unique smallest pair is in general NOT the
+   first pair the algorithm merges; it is the first step of the returned (sorted) dendrogram. *)
+Theorem C07_nnchain_first_step_f64 : forall (p : profile) meth s d (m : list PrimFloat.float) (n : N) s' d' m' M0 (a b : nat) v,
+  meth = Single \/ meth = Complete ->
+  nnchain_with (kops_of F64 meth) p meth s d m n = Ok (s', d', m') ->
+  prologue p m n = Ok M0 ->
+  Forall (fun w => PrimFloat.is_nan w = false) m ->
+  a < b -> b < m_obs M0 ->
+  UpdateSpec.wcell M0 a b = Some v ->
+  (forall x y w, x < y -> y < m_obs M0 -> (x, y) <> (a, b) -> UpdateSpec.wcell M0 x y = Some w -> PrimFloat.ltb v w = true) ->
+  exists t, nth_error (d_steps d') 0 = Some t /\ s_c1 t = a /\ s_c2 t = b /\ s_size t = 2 /\ s_dis t = v.
+Proof. exact nnchain_first_step_f64. Qed.
+Print Assumptions C07_nnchain_first_step_f64.
+
+Theorem C07_nnchain_first_step_f32 : forall (p : profile) meth s d (m : list f32) (n : N) s' d' m' M0 (a b : nat) v,
+  meth = Single \/ meth = Complete ->
+  nnchain_with (kops_of F32 meth) p meth s d m n = Ok (s', d', m') ->
+  prologue p m n = Ok M0 ->
+  Forall (fun w => BinarySingleNaN.is_nan w = false) m ->
+  a < b -> b < m_obs M0 ->
+  UpdateSpec.wcell M0 a b = Some v ->
+  (forall x y w, x < y -> y < m_obs M0 -> (x, y) <> (a, b) -> UpdateSpec.wcell M0 x y = Some w -> f_ltb F32 v w = true) ->
+  exists t, nth_error (d_steps d') 0 = Some t /\ s_c1 t = a /\ s_c2 t = b /\ s_size t = 2 /\ s_dis t = v.
+Proof. exact nnchain_first_step_f32. Qed.
+Print Assumptions C07_nnchain_first_step_f32.
+
+Theorem C07_nnchain_first_step_Q : forall (p : profile) (rt : Q -> Q) meth s d (m : list Q) n s' d' m' (M0 : cmat Q) (a b : nat) (v : Q),
+  meth = Average \/ meth = Weighted \/ meth = Ward ->
+  nnchain_with (kops_of (QFr rt) meth) p meth s d m n = Ok (s', d', m') ->
+  prologue p (square_all (kops_of (QFr rt) meth) m) n = Ok M0 ->
+  a < b -> b < m_obs M0 ->
+  UpdateSpec.wcell M0 a b = Some v ->
+  (forall x y w, x < y -> y < m_obs M0 -> (x, y) <> (a, b) -> UpdateSpec.wcell M0 x y = Some w -> (v < w)%Q) ->
+  exists t, nth_error (d_steps d') 0 = Some t /\ s_c1 t = a /\ s_c2 t = b /\ s_size t = 2
+    /\ s_dis t = k_rt (kops_of (QFr rt) meth) v.
+Proof. exact nnchain_first_step_Q. Qed.
+Print Assumptions C07_nnchain_first_step_Q.
+
+(* what the user calls: linkage(.., Method::Complete) on binary64 / binary32 *)
+Theorem C07_linkage_complete_first_step_f64 : forall (p : profile) s d (m : list PrimFloat.float) (n : N) s' d' m' M0 (a b : nat) v,
+  run_with F64 p ALinkage Complete s d m n = Ok (s', d', m') ->
+  prologue p m n = Ok M0 ->
+  Forall (fun w => PrimFloat.is_nan w = false) m ->
+  a < b -> b < m_obs M0 ->
+  UpdateSpec.wcell M0 a b = Some v ->
+  (forall x y w, x < y -> y < m_obs M0 -> (x, y) <> (a, b) -> UpdateSpec.wcell M0 x y = Some w -> PrimFloat.ltb v w = true) ->
+  exists t, nth_error (d_steps d') 0 = Some t /\ s_c1 t = a /\ s_c2 t = b /\ s_size t = 2 /\ s_dis t = v.
+Proof. exact linkage_complete_first_step_f64. Qed.
+Print Assumptions C07_linkage_complete_first_step_f64.
+
+Theorem C07_linkage_complete_first_step_f32 : forall (p : profile) s d (m : list f32) (n : N) s' d' m' M0 (a b : nat) v,
+  run_with F32 p ALinkage Complete s d m n = Ok (s', d', m') ->
+  prologue p m n = Ok M0 ->
+  Forall (fun w => BinarySingleNaN.is_nan w = false) m ->
+  a < b -> b < m_obs M0 ->
+  UpdateSpec.wcell M0 a b = Some v ->
+  (forall x y w, x < y -> y < m_obs M0 -> (x, y) <> (a, b) -> UpdateSpec.wcell M0 x y = Some w -> f_ltb F32 v w = true) ->
+  exists t, nth_error (d_steps d') 0 = Some t /\ s_c1 t = a /\ s_c2 t = b /\ s_size t = 2 /\ s_dis t = v.
+Proof. exact linkage_complete_first_step_f32. Qed.
+Print Assumptions C07_linkage_complete_first_step_f32.
+
+(* non-vacuity: a concrete rational matrix (d01 = 3, d02 = 1, d12 = 2) meets the hypotheses *)
+Example C07_first_step_hypotheses_satisfiable :
+  let m := [3; 1; 2]%Q in
+  (exists r, nnchain_with (kops_of (QFr (fun q => q)) Average) Release Average (st_new Q) (d_new Q 0) m 3 = Ok r)
+  /\ exists M0, prologue Release (square_all (kops_of (QFr (fun q => q)) Average) m) 3 = Ok M0
+       /\ 0 < 2 /\ 2 < m_obs M0 /\ UpdateSpec.wcell M0 0 2 = Some 1%Q
+       /\ (forall x y w, x < y -> y < m_obs M0 -> (x, y) <> (0, 2) -> UpdateSpec.wcell M0 x y = Some w -> (1 < w)%Q).
+Proof.
+  cbv zeta. split; [eexists; vm_compute; reflexivity|].
+  eexists. split; [vm_compute; reflexivity|]. cbn [m_obs]. split; [lia|]. split; [lia|]. split; [reflexivity|].
+  intros x y w Hxy Hy Hne Hw.
+  destruct x as [|[|x]]; destruct y as [|[|[|y]]]; try lia.
+  - vm_compute in Hw. inversion Hw. reflexivity.
+  - exfalso. apply Hne. reflexivity.
+  - vm_compute in Hw. inversion Hw. reflexivity.
+Qed.
